@@ -57,17 +57,45 @@ def text_cfg():
     return [list(c) for c in _TEXT_CFG]
 
 
-def doc_values(rng, k, total, e2e):
-    """the value tokens of one `doc` line for an index of kind k"""
+def doc_values(rng, k, total, e2e, dist=None):
+    """the value tokens of one `doc` line for an index of kind k (dist: the value distribution of a large /
+    wide catalog, see `Dist`)"""
     if k == "field":
-        return [rng.randrange(10)]
+        return [dist.pick(rng, "field") if dist else rng.randrange(10)]
     if k == "text":
         n = rng.randrange(1, 5) if total else rng.randrange(0, 5)
         return [rng.randrange(len(WORDS)) for _ in range(n)]
     if k == "facet" and e2e:
         hi = FACET_MATCHED if total or rng.random() < 0.8 else len(FACET_PATHS)
         return sorted(set(rng.randrange(hi) for _ in range(rng.randrange(1, 4))))
+    if dist and k == "keyword":
+        return sorted(set(dist.pick(rng, "keyword") for _ in range(rng.randrange(1, 4))))
     return sorted(set(rng.randrange(6) for _ in range(rng.randrange(1, 4))))
+
+
+class Dist(object):
+    """value distribution of a large / wide catalog: `n[kind]` distinct values; with skew the x-th most frequent
+    value is perm[x] and frequencies fall off cubically (40 values, 400 documents: the most frequent value has
+    ~ 115 documents, each of the 10 rarest ~ 3), so that the operands of one query differ in size by far more
+    than the thresholds of size-dependent code paths (x 32, x 64)"""
+
+    def __init__(self, rng, nfield, nkw, skew):
+        self.n = {"field": nfield, "keyword": nkw}
+        self.skew = skew
+        self.perm = {k: rng.sample(range(n), n) for k, n in self.n.items()}
+
+    def pick(self, rng, kind):
+        n = self.n[kind]
+        if not self.skew:
+            return rng.randrange(n)
+        return self.perm[kind][min(n - 1, int(n * rng.random() ** 3))]
+
+    def frequent(self, rng, kind):
+        return self.perm[kind][rng.randrange(min(3, self.n[kind]))]
+
+    def rare(self, rng, kind):
+        n = self.n[kind]
+        return self.perm[kind][rng.randrange(n // 2, n)]
 
 
 class Doc(object):
@@ -77,10 +105,31 @@ class Doc(object):
 def gen_catalog(rng, total, kinds=None, e2e=False):
     """cfg + doc lines.  total=True: every document has a (non-empty) value in every index.
     e2e=True: facet and text indexes are model-backed in the driver (hierarchical facets, query strings)."""
+    return gen_catalog_x(rng, total, kinds, e2e)[:3]
+
+
+def pair_kinds(rng):
+    """kinds for a `twocat` catalog: the indexes 2j and 2j+1 have the same kind (they get the same NAME in two
+    different catalogs)"""
+    ks = []
+    for _ in range(rng.choice([1, 1, 2])):
+        k = rng.choice(["field", "field", "keyword", "facet", "text"])
+        ks += [k, k]
+    if rng.random() < 0.3:
+        ks.append(rng.choice(["field", "keyword"]))
+    return ks
+
+
+def gen_catalog_x(rng, total, kinds=None, e2e=False, ndocs=None, dist=None, twocat=False, idrange=40):
+    """gen_catalog with the knobs of the large / wide / two-catalog modes; returns (kinds, cfg, docs, dist).
+    twocat: index i is registered in catalog i % 2 under the name n<i // 2> - two catalogs whose indexes carry
+    the same names (the driver ignores the line: to the model they are simply different indexes)"""
     nidx = rng.randrange(1, 5)
     if kinds is None:
         kinds = [rng.choice(["field", "field", "keyword", "facet", "text"]) for _ in range(nidx)]
     cfg = [["cfg", "family", 64]]
+    if twocat:
+        cfg.append(["cfg", "twocat", 1])
     if e2e:
         cfg.append(["cfg", "e2e", 1])
         if "text" in kinds:
@@ -95,25 +144,28 @@ def gen_catalog(rng, total, kinds=None, e2e=False):
                     ["cfg", "dict", "queries"] + [enc(q) for q in QUERIES]]
         else:
             cfg.append(["cfg", "index", "keyword" if k == "facet" else k])
-    ndocs = rng.choice([0, 1, 2, 3, 5, 8, 12, 25])
+    if ndocs is None:
+        ndocs = rng.choice([0, 1, 2, 3, 5, 8, 12, 25])
     docs = []
-    ids = rng.sample(range(40), ndocs)
+    ids = rng.sample(range(max(idrange, ndocs)), ndocs)
     for d in ids:
         for i, k in enumerate(kinds):
             if not total and rng.random() < 0.2:
                 if rng.random() < 0.5:
                     docs.append(["doc", i, d, "none"])
                 continue        # else: not known to this index at all
-            docs.append(["doc", i, d] + doc_values(rng, k, total, e2e))
-    return kinds, cfg, docs
+            docs.append(["doc", i, d] + doc_values(rng, k, total, e2e, dist))
+    return kinds, cfg, docs, dist
 
 
-def gen_leaf(rng, kinds, admissible_p=0.93, e2e=False):
+def gen_leaf(rng, kinds, admissible_p=0.93, e2e=False, dist=None):
     i = rng.randrange(len(kinds))
     k = kinds[i]
     pool = {"field": FIELD_CMPS, "keyword": KW_CMPS, "facet": KW_CMPS, "text": TEXT_CMPS}[k]
     c = rng.choice(pool) if rng.random() < admissible_p else rng.choice(ALL_CMPS + ["inrange"])
     nvals = (NVALS_E2E if e2e else NVALS)[k]
+    if dist and k in dist.n:
+        nvals = dist.n[k]
     if c in ("inrange", "notinrange"):
         return ["range", 1 if c == "notinrange" else 0, i, rng.randrange(nvals), rng.randrange(nvals),
                 rng.randrange(2), rng.randrange(2)]
@@ -123,22 +175,162 @@ def gen_leaf(rng, kinds, admissible_p=0.93, e2e=False):
     return ["cmp", c, i, "one", rng.randrange(nvals)]
 
 
-def gen_tree(rng, kinds, depth, range_bias=0.0, allow_not=True, e2e=False):
+def gen_tree(rng, kinds, depth, range_bias=0.0, allow_not=True, e2e=False, dist=None):
     r = rng.random()
     if depth <= 0 or r < 0.3:
         if rng.random() < range_bias:
             fi = [i for i, k in enumerate(kinds) if k == "field"]
             if fi:
-                return ["cmp", rng.choice(["gt", "ge", "lt", "le"]), rng.choice(fi), "one", rng.randrange(10)]
-        return gen_leaf(rng, kinds, e2e=e2e)
+                return ["cmp", rng.choice(["gt", "ge", "lt", "le"]), rng.choice(fi), "one",
+                        rng.randrange(dist.n["field"] if dist else 10)]
+        return gen_leaf(rng, kinds, e2e=e2e, dist=dist)
     if allow_not and r < 0.42:
-        return ["not", gen_tree(rng, kinds, depth - 1, range_bias, allow_not, e2e)]
+        return ["not", gen_tree(rng, kinds, depth - 1, range_bias, allow_not, e2e, dist)]
     op = "and" if r < 0.72 else "or"
     n = rng.choice([1, 2, 2, 2, 3, 3, 4])
-    kids = [gen_tree(rng, kinds, depth - 1, range_bias, allow_not, e2e) for _ in range(n)]
+    kids = [gen_tree(rng, kinds, depth - 1, range_bias, allow_not, e2e, dist) for _ in range(n)]
     if rng.random() < 0.15 and kids:
         kids.append(kids[0])          # repeated operand
     return [op, kids]
+
+
+# --- generators aimed at size- and arity-dependent code paths, and at folds across indexes --------------------
+NEG_CMP = {"eq": "noteq", "noteq": "eq", "gt": "le", "le": "gt", "lt": "ge", "ge": "lt", "any": "notany",
+           "notany": "any", "all": "notall", "notall": "all", "contains": "notcontains", "notcontains": "contains"}
+WIDE_ARITIES = [9, 12, 15, 16, 17, 17, 18, 19, 20, 21, 23, 24, 25, 31, 32, 33, 33, 34, 40]
+
+
+def neg_tree(t):
+    """the tree hypatia's negate() gives (without flattening): same answer as Not(t) on a Total catalog"""
+    if t[0] == "cmp":
+        return ["cmp", NEG_CMP[t[1]], t[2], t[3], t[4]]
+    if t[0] == "range":
+        return ["range", 0 if t[1] else 1] + list(t[2:])
+    if t[0] == "not":
+        return t[1]
+    return ["or" if t[0] == "and" else "and", [neg_tree(k) for k in t[1]]]
+
+
+def _nv(kinds, i, e2e, dist):
+    k = kinds[i]
+    return dist.n[k] if dist and k in dist.n else (NVALS_E2E if e2e else NVALS)[k]
+
+
+def selective_leaf(rng, kinds, e2e, dist, rare=False):
+    """a leaf that matches FEW documents (one value, two values, a short range); rare: one of the rare values of
+    a skewed catalog"""
+    i = rng.randrange(len(kinds))
+    k = kinds[i]
+    n = _nv(kinds, i, e2e, dist)
+    val = (lambda: dist.rare(rng, k)) if rare and dist and dist.skew and k in dist.n else (lambda: rng.randrange(n))
+    r = rng.random()
+    if k == "text":
+        return ["cmp", rng.choice(["contains", "eq"]), i, "one", val()]
+    if r < 0.6:
+        return ["cmp", "eq", i, "one", val()]
+    if r < 0.8 or k != "field":
+        return ["cmp", "any", i, "many", [val() for _ in range(rng.choice([1, 2, 2, 3]))]]
+    lo = val()
+    return ["range", 0, i, lo, lo + rng.choice([0, 0, 1]), 0, 0]
+
+
+def broad_leaf(rng, kinds, e2e, dist, total):
+    """a leaf that matches MOST documents: complements of selective leaves, open bounds, frequent values"""
+    t = selective_leaf(rng, kinds, e2e, dist, rare=True)
+    i = t[2]
+    k = kinds[i]
+    r = rng.random()
+    if k == "field" and r < 0.35:
+        n = _nv(kinds, i, e2e, dist)
+        return rng.choice([["cmp", "ge", i, "one", rng.randrange(0, 2)], ["cmp", "le", i, "one", n - 1 - rng.randrange(0, 2)],
+                           ["cmp", "gt", i, "one", -1], ["range", 0, i, 0, n, 0, 0]])
+    if dist and dist.skew and k in dist.n and r < 0.55:
+        return ["cmp", "any", i, "many", sorted(set(dist.frequent(rng, k) for _ in range(3)))]
+    # NotEq / NotAny / NotInRange answer with the index's whole population minus a few (on a non-Total catalog
+    # that includes value-less documents: still an And/Or clause the specification determines)
+    return neg_tree(t)
+
+
+def present(rng, op, kids, total):
+    """one of the ways hypatia arrives at an n-ary And/Or over `kids`: the flat constructor call, nested
+    same-type groups (flattened by the constructor), and - on Total catalogs, where the specification determines
+    complements - Not over the dual node of the negated operands (expanded by negate())"""
+    r = rng.random()
+    if total and r < 0.25:
+        return ["not", ["or" if op == "and" else "and", [neg_tree(k) for k in kids]]]
+    if r < 0.5 and len(kids) >= 4:
+        out, j = [], 0
+        while j < len(kids):
+            g = rng.choice([1, 1, 2, 3, 5, 8])
+            grp = kids[j:j + g]
+            j += g
+            if len(grp) == 1:
+                out += grp
+            elif total and rng.random() < 0.2:
+                out.append(["not", ["or" if op == "and" else "and", [neg_tree(k) for k in grp]]])
+            else:
+                out.append([op, grp])
+        return [op, out]
+    return [op, list(kids)]
+
+
+def gen_wide(rng, kinds, total, e2e=False, dist=None):
+    """And / Or with 9-40 operands (around 16 and 32, mostly not powers of two): every operand of an Or is
+    selective, every operand of an And broad, so that each single operand matters for the answer"""
+    op = rng.choice(["and", "or"])
+    n = rng.choice(WIDE_ARITIES)
+    kids = []
+    for _ in range(n):
+        r = rng.random()
+        if r < 0.06:
+            kids.append(gen_tree(rng, kinds, 1, e2e=e2e, dist=dist, allow_not=total))
+        elif op == "or":
+            kids.append(selective_leaf(rng, kinds, e2e, dist))
+        else:
+            kids.append(broad_leaf(rng, kinds, e2e, dist, total))
+    if rng.random() < 0.1:
+        kids.append(kids[rng.randrange(len(kids))])
+    return present(rng, op, kids, total)
+
+
+def gen_skew(rng, kinds, total, e2e=False, dist=None):
+    """And / Or of 2-5 operands of very different sizes in random order (the small operand first, last, in the
+    middle): broad leaves and selective leaves over rare values"""
+    op = rng.choice(["and", "and", "or"])
+    nb, ns = rng.choice([(1, 1), (1, 1), (2, 1), (1, 2), (3, 1), (2, 2), (1, 0), (3, 2)])
+    kids = [broad_leaf(rng, kinds, e2e, dist, total) for _ in range(nb)] + \
+           [selective_leaf(rng, kinds, e2e, dist, rare=True) for _ in range(ns)]
+    if rng.random() < 0.6:
+        rng.shuffle(kids)
+    if rng.random() < 0.2:
+        kids.append(gen_tree(rng, kinds, 2, e2e=e2e, dist=dist, allow_not=total))
+    t = present(rng, op, kids, total)
+    if rng.random() < 0.2:
+        # one level up: the skewed node is itself an operand
+        t = [rng.choice(["and", "or"]), [broad_leaf(rng, kinds, e2e, dist, total), t]]
+    return t
+
+
+def gen_eqfold(rng, kinds, e2e=False, dist=None, allow_not=True):
+    """And / Or whose operands are all Eq (or all NotEq): the shape the optimiser folds into Any/All/NotAny/NotAll
+    when the operands address ONE index - here they address one index, or several indexes of the same kind
+    (with `twocat` catalogs: same-named indexes of two catalogs)"""
+    i = rng.randrange(len(kinds))
+    same = [j for j, k in enumerate(kinds) if k == kinds[i]]
+    c = rng.choice(["eq", "eq", "noteq"])
+    n = rng.choice([2, 2, 2, 3, 3, 4])
+    mixed = len(same) > 1 and rng.random() < 0.6
+    kids = []
+    for _ in range(n):
+        j = rng.choice(same) if mixed else i
+        kids.append(["cmp", c, j, "one", rng.randrange(_nv(kinds, j, e2e, dist))])
+    t = [rng.choice(["and", "or"]), kids]
+    r = rng.random()
+    if allow_not and r < 0.2:
+        t = ["not", neg_tree(t)]
+    elif r < 0.4:
+        t = [rng.choice(["and", "or"]), [t, gen_leaf(rng, kinds, e2e=e2e, dist=dist)]]
+    return t
 
 
 class Impl(object):
@@ -158,7 +350,9 @@ class Impl(object):
         self.family = fam
         self.e2e = any(c[1] == "e2e" for c in cfg)
         self.kinds = kinds or [c[2] for c in cfg if c[1] == "index"]
-        self.cat = Catalog(family=fam)
+        self.twocat = any(c[1] == "twocat" for c in cfg)
+        self.cats = [Catalog(family=fam), Catalog(family=fam)] if self.twocat else [Catalog(family=fam)]
+        self.cat = self.cats[0]
         self.idx = []
         for i, k in enumerate(self.kinds):
             attr = "a%d" % i
@@ -171,7 +365,11 @@ class Impl(object):
                                 family=fam)
             else:
                 ix = TextIndex(attr, family=fam)
-            self.cat["i%d" % i] = ix
+            if self.twocat:
+                # index i lives in catalog i % 2 under the name n<i // 2>: two catalogs, same index names
+                self.cats[i % 2]["n%d" % (i // 2)] = ix
+            else:
+                self.cat["i%d" % i] = ix
             self.idx.append(ix)
 
     def value(self, i, toks):
